@@ -440,8 +440,12 @@ def _containers_of(mod):
     return out
 
 
+_BINDINGS = {}
+
+
 def snapshot_state():
-    """remember the content of every mutable module-level / class-level container of the shadow package"""
+    """remember the content of every mutable module-level / class-level container of the shadow package and the
+    binding of every module global and class attribute"""
     import copy
 
     for name, mod in list(sys.modules.items()):
@@ -449,6 +453,17 @@ def snapshot_state():
             for c in _containers_of(mod):
                 if id(c) not in _STATE:
                     _STATE[id(c)] = (c, copy.copy(c))
+            if name not in _BINDINGS:
+                b = {}
+                for k, v in list(vars(mod).items()):
+                    if k.startswith("__"):
+                        continue
+                    b[("g", k)] = v
+                    if isinstance(v, type) and getattr(v, "__module__", "") == name:
+                        for ck, cv in list(vars(v).items()):
+                            if not (ck.startswith("__") and ck.endswith("__")):
+                                b[("c", k, ck)] = cv
+                _BINDINGS[name] = b
 
 
 def restore_state():
@@ -464,6 +479,53 @@ def restore_state():
                 c.clear()
                 c.update(orig)
     SYM.symkeys.clear()
+    # rebinding of module globals / class attributes (flags, counters, memoised scalars)
+    for name, b in _BINDINGS.items():
+        mod = sys.modules.get(name)
+        if mod is None:
+            continue
+        g = vars(mod)
+        classes = {}
+        for key, val in b.items():
+            if key[0] == "g":
+                val = OVERRIDES.get((name, key[1]), val)
+                if g.get(key[1], _MISSING) is not val:
+                    g[key[1]] = val
+            else:
+                cls = b.get(("g", key[1]))
+                if isinstance(cls, type):
+                    classes[key[1]] = cls
+                    if cls.__dict__.get(key[2], _MISSING) is not val:
+                        try:
+                            setattr(cls, key[2], val)
+                        except (AttributeError, TypeError):
+                            pass
+        # attributes added to classes / modules by a path are removed again
+        for k in [k for k in list(g) if not k.startswith("__") and ("g", k) not in b]:
+            del g[k]
+        for cname, cls in classes.items():
+            for ck in [ck for ck in list(vars(cls)) if not (ck.startswith("__") and ck.endswith("__")) and ("c", cname, ck) not in b]:
+                try:
+                    delattr(cls, ck)
+                except (AttributeError, TypeError):
+                    pass
+
+
+_MISSING = object()
+OVERRIDES = {}  # (module name, global name) -> value: harness-installed replacements (summaries) that survive restore_state
+
+
+def override(modname, name, value):
+    OVERRIDES[(modname, name)] = value
+    setattr(sys.modules[modname], name, value)
+
+
+def clear_overrides():
+    for (modname, name) in list(OVERRIDES):
+        b = _BINDINGS.get(modname, {})
+        if ("g", name) in b:
+            setattr(sys.modules[modname], name, b[("g", name)])
+    OVERRIDES.clear()
 
 
 def functions_encoded():
